@@ -143,12 +143,15 @@ class TimeMixIn(object):
             text += '.%d' % (dt.microsecond // 1000)
 
         if dt.utcoffset():
-            seconds = dt.utcoffset().seconds
-            if seconds < 0:
+            # `timedelta.seconds` is never negative and is not minutes
+            offset = dt.utcoffset()
+            minutes = (offset.days * 86400 + offset.seconds) // 60
+            if minutes < 0:
                 text += '-'
+                minutes = -minutes
             else:
                 text += '+'
-            text += '%.2d%.2d' % (seconds // 3600, seconds % 3600)
+            text += '%.2d%.2d' % (minutes // 60, minutes % 60)
         else:
             text += 'Z'
 
